@@ -242,6 +242,7 @@ class Engine:
     def __init__(self, registry: Registry, contracts, ghosts=None, timeout_ms=20000, seed=0):
         self.reg = registry
         self.contracts = contracts          # qualname -> Contract
+        self.elem_defs = {}                 # id of a comprehension's sequence term -> (term, index const, element term, type)
         self.ghosts = ghosts or {}
         self.obligations = []
         self.fresh_counter = itertools.count()
